@@ -22,18 +22,31 @@ theorem prepend_others_kept_in_order (v : α) (old : List α) :
 /-- envAppend keeps every other element, in the relative order of first occurrences. -/
 theorem append_others_kept_in_order (v : α) (old : List α) :
     (applyL true true [v] old).filter (· != v) = (uniq old).filter (· != v) := by
-  simp only [applyL, appendL, List.foldl_cons, List.foldl_nil, if_true]
-  rw [filter_uniq, filter_uniq]
-  simp [List.filter_append]
+  simp only [applyL, List.foldl_cons, List.foldl_nil, if_true]
+  rw [uniq_appendL]
+  simp [List.filter_append, List.filter_filter]
 
-/-- envAppend puts its value last when it was not already present. -/
-theorem append_last_partial (v : α) (old : List α) (h : v ∉ old) :
+/-- envAppend puts its value last — for every prior list, also one that already holds the value (the element
+moves; repair of D8). -/
+theorem append_last (v : α) (old : List α) :
     (applyL true true [v] old).getLast? = some v := by
-  simp [applyL, appendL, uniq_append_singleton v old h]
+  simp [applyL, uniq_appendL]
 
-/-- The unrestricted clause "envAppend puts it last" is false of the code: an element that is
-already present keeps its earlier position (known finding D8). -/
-theorem append_present_witness : applyL true true [1] [1, 2] = [1, 2] := by decide
+/-- The pinned rule (before the repair of D8: add at the end, then `pathUnique` keeping the first occurrence) puts
+the value last only when it was not already present … -/
+theorem append_last_pinned_partial (v : α) (old : List α) (h : v ∉ old) :
+    (applyLPinned true true [v] old).getLast? = some v := by
+  simp [applyLPinned, appendLPinned, uniq_append_singleton v old h]
+
+/-- … and is false without that hypothesis: an element that is already present kept its earlier position (D8). -/
+theorem append_present_witness_pinned : applyLPinned true true [1] [1, 2] = [1, 2] := by decide
+
+/-- On lists that do not hold the value the repaired and the pinned rule agree (the repair changes nothing else). -/
+theorem append_pinned_agree (v : α) (old : List α) (h : v ∉ old) :
+    applyL true true [v] old = applyLPinned true true [v] old := by
+  have hf : old.filter (· != v) = old := by
+    apply List.filter_eq_self.mpr; intro a ha; simp; intro e; exact h (e ▸ ha)
+  simp [applyL, applyLPinned, appendL, appendLPinned, hf]
 
 /-- Unsetup removes exactly the element: nothing equal to `v` is left, everything else is kept. -/
 theorem unsetup_removes_exactly (append : Bool) (v : α) (old : List α) :
@@ -49,9 +62,9 @@ theorem unsetup_after_setup (append : Bool) (v : α) (old : List α) (h : v ∉ 
   rw [unsetup_removes_exactly]
   cases append
   · simp [applyL, prependL, uniq, List.filter_filter, hf, uniq_idem]
-  · have h' : v ∉ uniq old := fun hm => h ((mem_uniq old v).mp hm)
-    simp [applyL, appendL, uniq_append_singleton v old h, uniq_append_singleton v _ h',
-      List.filter_append, hf, uniq_idem]
+  · simp only [applyL, List.foldl_cons, List.foldl_nil, if_true]
+    rw [uniq_appendL, hf, uniq_append_singleton v _ (fun hm => h ((mem_uniq old v).mp hm))]
+    simp [List.filter_append, hf, uniq_idem]
 
 /-- Sequences: any fold of actions leaves a duplicate-free list. -/
 theorem sequence_nodup (acts : List (Bool × Bool × α)) (old : List α) :
